@@ -15,8 +15,6 @@ import (
 	"go/constant"
 	"go/token"
 	"go/types"
-	"sort"
-	"strings"
 
 	"golang.org/x/tools/go/cfg"
 
@@ -35,6 +33,9 @@ type X struct {
 	assume func(ast.Expr) int // set while a Reach query with an assumption runs
 	// Prog enables the inlining of same-package helper predicates in Table.
 	Prog *core.Program
+	// Rewrite maps a condition to an equivalent one the rule's classifier knows (nil: unchanged); it
+	// sees a whole conjunction/disjunction before it is split into atoms.
+	Rewrite func(ast.Expr) ast.Expr
 	// ZeroInit: boolean locals that start with the zero value without an assignment statement
 	// (named results of the function and of the helpers inlined into its view).
 	ZeroInit map[types.Object]bool
@@ -192,6 +193,14 @@ func BoolConst(info *types.Info, e ast.Expr) (bool, bool) {
 // Facts is cfgq.Facts plus the reduction of comparisons with true/false.
 func (x *X) Facts(e ast.Expr, val bool) []cfgq.Fact {
 	e = ast.Unparen(e)
+	if x.Rewrite != nil {
+		if r := x.Rewrite(e); r != nil {
+			e = r
+		}
+	}
+	if r := x.closureResult(e); r != nil {
+		return append([]cfgq.Fact{{Expr: e, Val: val}}, x.Facts(r, val)...)
+	}
 	switch c := e.(type) {
 	case *ast.Ident:
 		if rhs := x.Expand(c); rhs != nil {
@@ -226,6 +235,51 @@ func (x *X) Facts(e ast.Expr, val bool) []cfgq.Fact {
 		return x.Facts(r, val)
 	}
 	return []cfgq.Fact{{Expr: e, Val: val}}
+}
+
+// closureResult: e calls a function literal (directly or bound once to a local) whose body is one
+// return statement: the returned expression with the parameters replaced by the arguments.
+func (x *X) closureResult(e ast.Expr) ast.Expr {
+	call, ok := e.(*ast.CallExpr)
+	if !ok || call.Ellipsis.IsValid() {
+		return nil
+	}
+	if r, seen := x.synth[e]; seen {
+		return r
+	}
+	lit, _ := ast.Unparen(call.Fun).(*ast.FuncLit)
+	if id, isId := ast.Unparen(call.Fun).(*ast.Ident); isId && lit == nil {
+		if d, ok := SingleDef(x.Info, x.G.Body, id); ok && d.Rhs != nil && d.Index == -1 {
+			lit, _ = ast.Unparen(d.Rhs).(*ast.FuncLit)
+		}
+	}
+	if lit == nil || len(lit.Body.List) != 1 {
+		return nil
+	}
+	ret, ok := lit.Body.List[0].(*ast.ReturnStmt)
+	if !ok || len(ret.Results) != 1 {
+		return nil
+	}
+	bind := map[types.Object]ast.Expr{}
+	i := 0
+	for _, fl := range lit.Type.Params.List {
+		if _, variadic := fl.Type.(*ast.Ellipsis); variadic {
+			return nil
+		}
+		for _, n := range fl.Names {
+			if i >= len(call.Args) {
+				return nil
+			}
+			bind[x.Info.Defs[n]] = call.Args[i]
+			i++
+		}
+	}
+	if i != len(call.Args) {
+		return nil
+	}
+	r := (&X{Info: x.Info, bind: bind}).subst(ret.Results[0])
+	x.synth[e] = r
+	return r
 }
 
 // lenSum rewrites a comparison of a sum of lengths with a constant into the equivalent boolean
@@ -366,6 +420,10 @@ type Ev struct {
 	Lit   *Lit
 	Enter ast.Stmt
 	Done  ast.Stmt
+	// Again: this Done follows an iteration that ran to the end of the loop body: "some iteration
+	// took this path (its tests held for some element), later the loop ended". The positive
+	// in-loop atoms of the path stay true.
+	Again bool
 }
 
 // End kinds of a trace.
@@ -410,6 +468,14 @@ func (t *Trace) Lits() []Lit {
 // shortCircuit enumerates the atom sequences with which e evaluates to val.
 func (x *X) shortCircuit(e ast.Expr, val bool) [][]Lit {
 	e = ast.Unparen(e)
+	if x.Rewrite != nil {
+		if r := x.Rewrite(e); r != nil {
+			e = r
+		}
+	}
+	if r := x.closureResult(e); r != nil {
+		return x.shortCircuit(r, val)
+	}
 	product := func(a, b [][]Lit) [][]Lit {
 		var out [][]Lit
 		for _, p := range a {
@@ -462,6 +528,7 @@ func (x *X) Traces(from *cfg.Block, idx int, stop func(*cfg.Block) bool, max int
 	var out []Trace
 	var err error
 	onPath := map[*cfg.Block]bool{}
+	againDepth := 0
 	var walk func(b *cfg.Block, i int, evs []Ev, first bool)
 	emit := func(evs []Ev, end int, ret *ast.ReturnStmt, b *cfg.Block) {
 		if len(out) >= max {
@@ -480,6 +547,33 @@ func (x *X) Traces(from *cfg.Block, idx int, stop func(*cfg.Block) bool, max int
 		}
 		if onPath[b] {
 			emit(evs, EndBack, nil, b)
+			// a loop head reached again: the effects of this iteration (a flag set under an
+			// element test) persist when the loop ends afterwards
+			if len(b.Succs) == 2 && againDepth < 2 {
+				isHead := b.Kind == cfg.KindRangeLoop
+				if fs, isFor := b.Stmt.(*ast.ForStmt); isFor && b.Kind == cfg.KindForLoop && x.LoopDecisions {
+					_ = fs
+					isHead = true
+				}
+				// only an iteration that changed a boolean local can matter after the loop
+				effect := false
+				for k := len(evs) - 1; k >= 0 && evs[k].Enter != b.Stmt; k-- {
+					switch st := evs[k].Node.(type) {
+					case *ast.AssignStmt:
+						for _, l := range st.Lhs {
+							if BoolLocal(x.Info, l) != nil {
+								effect = true
+							}
+						}
+					}
+				}
+				if isHead && effect {
+					againDepth++
+					onPath[b.Succs[1]] = onPath[b.Succs[1]] // no-op: done block is entered normally
+					walk(b.Succs[1], 0, append(append([]Ev(nil), evs...), Ev{Done: b.Stmt, Again: true}), false)
+					againDepth--
+				}
+			}
 			return
 		}
 		onPath[b] = true
@@ -535,707 +629,4 @@ func (x *X) Traces(from *cfg.Block, idx int, stop func(*cfg.Block) bool, max int
 	}
 	walk(from, idx, nil, true)
 	return out, err
-}
-
-// ---------------------------------------------------------------------------
-// decision tables
-
-// Row is one path of a predicate: the atoms it decided and its outcome.
-type Row struct {
-	Lits map[string]bool
-	Out  string
-}
-
-func (r Row) String() string {
-	var ks []string
-	for k := range r.Lits {
-		ks = append(ks, k)
-	}
-	sort.Strings(ks)
-	var s []string
-	for _, k := range ks {
-		if r.Lits[k] {
-			s = append(s, k)
-		} else {
-			s = append(s, "!"+k)
-		}
-	}
-	return strings.Join(s, " & ") + " -> " + r.Out
-}
-
-// Classifier maps a branch literal to a named atom; pol=false means that the
-// literal is the negation of the atom. ok=false: the test is not recognised.
-type Classifier func(l Lit) (atom string, pol bool, ok bool)
-
-// Table turns the returning traces of a predicate into rows. result is the
-// index of the boolean result. Tests inside a loop are existential: a path that
-// leaves the function from inside the loop keeps its positive in-loop atoms, a
-// path on which the loop runs to completion has all those atoms false.
-func (x *X) Table(traces []Trace, result int, cls Classifier) ([]Row, error) {
-	loopAtoms := map[ast.Stmt]map[string]bool{}
-	type pre struct {
-		lits map[string]bool
-		done []ast.Stmt
-		out  string
-		dead bool
-	}
-	clone := func(p *pre) *pre {
-		q := &pre{lits: map[string]bool{}, done: p.done, out: p.out, dead: p.dead}
-		for k, v := range p.lits {
-			q.lits[k] = v
-		}
-		return q
-	}
-	set := func(p *pre, a string, v bool) {
-		if old, ok := p.lits[a]; ok && old != v {
-			p.dead = true
-		}
-		p.lits[a] = v
-	}
-	// addLits extends every partial row by the literals; a literal that the
-	// classifier does not know and that calls a helper of the same package is
-	// replaced by the helper's own rows (parameters bound to the arguments).
-	guards := map[ast.Stmt][]string{} // per trace: positive in-loop atoms so far
-	addLits := func(ps []*pre, lits []Lit) ([]*pre, error) {
-		for _, l := range lits {
-			l.Expr = x.subst(l.Expr)
-			if l.Root == nil {
-				l.Root, l.Subst = x.G.Body, x.subst
-			}
-			a, pol, ok := cls(l)
-			if ok {
-				v := l.Val == pol
-				if l.Loop != nil {
-					if !v {
-						continue
-					}
-					if loopAtoms[l.Loop] == nil {
-						loopAtoms[l.Loop] = map[string]bool{}
-					}
-					loopAtoms[l.Loop][a] = true
-					// the in-loop atoms already true on this path guard this one
-					cur := map[string]bool{}
-					for _, g := range guards[l.Loop] {
-						if g != a {
-							cur[g] = true
-						}
-					}
-					if x.Deps == nil {
-						x.Deps = map[string]map[string]bool{}
-					}
-					if old, seen := x.Deps[a]; seen {
-						for g := range old {
-							if !cur[g] {
-								delete(old, g)
-							}
-						}
-					} else {
-						x.Deps[a] = cur
-					}
-					guards[l.Loop] = append(guards[l.Loop], a)
-				}
-				for _, p := range ps {
-					set(p, a, v)
-				}
-				continue
-			}
-			rows, ierr := x.inline(l, cls)
-			if ierr != nil || l.Loop != nil {
-				return nil, fmt.Errorf("unrecognised test `%s`", core.NodeString(x.G.Fset, l.Expr))
-			}
-			var next []*pre
-			for _, p := range ps {
-				for _, r := range rows {
-					if r.Out != fmt.Sprint(l.Val) {
-						continue
-					}
-					q := clone(p)
-					for a, v := range r.Lits {
-						set(q, a, v)
-					}
-					next = append(next, q)
-				}
-			}
-			ps = next
-		}
-		return ps, nil
-	}
-	// boolean locals assigned on the path stand for the assigned expression (a verdict carried in a
-	// local: `rejected := A(x); if !rejected { rejected = B(x) }; return rejected`)
-	type bind struct {
-		expr ast.Expr
-		env  map[types.Object]*bind
-	}
-	var expandLits func(lits []Lit, env map[types.Object]*bind, depth int) [][]Lit
-	expandLits = func(lits []Lit, env map[types.Object]*bind, depth int) [][]Lit {
-		alts := [][]Lit{nil}
-		for _, l := range lits {
-			var repl [][]Lit
-			if id, ok := ast.Unparen(l.Expr).(*ast.Ident); ok && depth > 0 {
-				b := env[BoolLocal(x.Info, id)]
-				if b == nil && BoolLocal(x.Info, id) != nil && x.ZeroInit[BoolLocal(x.Info, id)] {
-					b = &bind{} // never assigned on this path: false
-				}
-				if b != nil && BoolLocal(x.Info, id) != nil {
-					if bv, isConst := BoolConst(x.Info, b.expr); isConst || b.expr == nil {
-						// a constant (nil: the zero value false): the path is feasible only for that value
-						if bv == l.Val {
-							repl = [][]Lit{{}}
-						} else {
-							repl = [][]Lit{}
-						}
-					} else {
-						repl = [][]Lit{}
-					}
-					var scs [][]Lit
-					if b.expr != nil {
-						if _, isConst := BoolConst(x.Info, b.expr); !isConst {
-							scs = x.shortCircuit(b.expr, l.Val)
-						}
-					}
-					for _, a := range scs {
-						for k := range a {
-							a[k].Loop = l.Loop
-						}
-						repl = append(repl, expandLits(a, b.env, depth-1)...)
-					}
-				}
-			}
-			if repl == nil {
-				repl = [][]Lit{{l}}
-			}
-			var next [][]Lit
-			for _, a := range alts {
-				for _, r := range repl {
-					next = append(next, append(append([]Lit(nil), a...), r...))
-				}
-			}
-			alts = next
-		}
-		return alts
-	}
-	assigned := func(n ast.Node, env map[types.Object]*bind) map[types.Object]*bind {
-		set := func(lhs ast.Expr, rhs ast.Expr) {
-			o := BoolLocal(x.Info, lhs)
-			if o == nil {
-				return
-			}
-			ne := map[types.Object]*bind{}
-			for k, v := range env {
-				ne[k] = v
-			}
-			if rhs == nil {
-				delete(ne, o)
-			} else {
-				ne[o] = &bind{expr: rhs, env: env}
-			}
-			env = ne
-		}
-		setZero := func(lhs ast.Expr) {
-			if o := BoolLocal(x.Info, lhs); o != nil {
-				ne := map[types.Object]*bind{}
-				for k, v := range env {
-					ne[k] = v
-				}
-				ne[o] = &bind{expr: nil, env: env}
-				env = ne
-			}
-		}
-		switch st := n.(type) {
-		case *ast.AssignStmt:
-			for i, l := range st.Lhs {
-				if len(st.Lhs) == len(st.Rhs) && (st.Tok == token.ASSIGN || st.Tok == token.DEFINE) {
-					set(l, st.Rhs[i])
-				} else {
-					set(l, nil)
-				}
-			}
-		case *ast.DeclStmt:
-			if gd, ok := st.Decl.(*ast.GenDecl); ok {
-				for _, sp := range gd.Specs {
-					if vs, ok := sp.(*ast.ValueSpec); ok {
-						for i, nm := range vs.Names {
-							switch {
-							case len(vs.Values) == len(vs.Names):
-								set(nm, vs.Values[i])
-							case len(vs.Values) == 0:
-								setZero(nm)
-							default:
-								set(nm, nil)
-							}
-						}
-					}
-				}
-			}
-		}
-		return env
-	}
-	var pres []*pre
-	for ti := range traces {
-		t := &traces[ti]
-		if t.End != EndReturn {
-			if t.End == EndBack || t.End == EndAbort {
-				continue
-			}
-			return nil, fmt.Errorf("a path leaves the predicate without a return statement")
-		}
-		p := &pre{lits: map[string]bool{}}
-		for _, e := range t.Evs {
-			if e.Done != nil {
-				p.done = append(p.done, e.Done)
-			}
-		}
-		ps := []*pre{p}
-		env := map[types.Object]*bind{}
-		cenv := map[types.Object]constant.Value{} // locals holding a constant on this path
-		guards = map[ast.Stmt][]string{}
-		var err error
-		infeasible := false
-		for _, e := range t.Evs {
-			switch {
-			case e.Node != nil:
-				env = assigned(e.Node, env)
-				x.constStep(e.Node, cenv)
-			case e.Lit != nil:
-				if v, known := x.constTest(e.Lit.Expr, cenv); known {
-					if v != e.Lit.Val {
-						infeasible = true
-					}
-					continue // decided by the constant the local holds on this path
-				}
-				var next []*pre
-				for _, alt := range expandLits([]Lit{*e.Lit}, env, 4) {
-					var cp []*pre
-					for _, q := range ps {
-						cp = append(cp, clone(q))
-					}
-					cp, err = addLits(cp, alt)
-					if err != nil {
-						return nil, err
-					}
-					next = append(next, cp...)
-				}
-				ps = next
-			}
-		}
-		if infeasible {
-			continue
-		}
-		var res ast.Expr
-		switch {
-		case result < len(t.Ret.Results):
-			res = t.Ret.Results[result]
-		case len(t.Ret.Results) == 0 && result < len(x.Named):
-			res = x.Named[result] // bare return of a named result
-		default:
-			return nil, fmt.Errorf("return statement without result %d", result)
-		}
-		if bv, ok := BoolConst(x.Info, res); ok {
-			for _, q := range ps {
-				q.out = fmt.Sprint(bv)
-			}
-			pres = append(pres, ps...)
-			continue
-		}
-		for _, val := range []bool{true, false} {
-			var alts [][]Lit
-			for _, a := range x.shortCircuit(res, val) {
-				for k := range a {
-					a[k].Loop = nil
-				}
-				alts = append(alts, expandLits(a, env, 4)...)
-			}
-			for _, alt := range alts {
-				var qs []*pre
-				for _, q := range ps {
-					c := clone(q)
-					c.out = fmt.Sprint(val)
-					qs = append(qs, c)
-				}
-				for k := range alt {
-					alt[k].Loop = nil
-				}
-				qs, err := addLits(qs, alt)
-				if err != nil {
-					return nil, err
-				}
-				pres = append(pres, qs...)
-			}
-		}
-	}
-	var rows []Row
-	for _, p := range pres {
-		for _, l := range p.done {
-			for a := range loopAtoms[l] {
-				set(p, a, false)
-			}
-		}
-		if !p.dead {
-			rows = append(rows, Row{Lits: p.lits, Out: p.out})
-		}
-	}
-	return rows, nil
-}
-
-// constStep records which locals hold a constant after executing n.
-func (x *X) constStep(n ast.Node, cenv map[types.Object]constant.Value) {
-	set := func(l, r ast.Expr) {
-		id, ok := ast.Unparen(l).(*ast.Ident)
-		if !ok {
-			return
-		}
-		v, ok := core.ObjOf(x.Info, id).(*types.Var)
-		if !ok || v.IsField() || v.Pkg() == nil || v.Parent() == v.Pkg().Scope() {
-			return
-		}
-		if r != nil {
-			if tv, ok := x.Info.Types[ast.Unparen(r)]; ok && tv.Value != nil {
-				cenv[v] = tv.Value
-				return
-			}
-		}
-		delete(cenv, v)
-	}
-	switch st := n.(type) {
-	case *ast.AssignStmt:
-		for i, l := range st.Lhs {
-			if len(st.Lhs) == len(st.Rhs) && (st.Tok == token.ASSIGN || st.Tok == token.DEFINE) {
-				set(l, st.Rhs[i])
-			} else {
-				set(l, nil)
-			}
-		}
-	case *ast.IncDecStmt:
-		set(st.X, nil)
-	case *ast.DeclStmt:
-		if gd, ok := st.Decl.(*ast.GenDecl); ok {
-			for _, sp := range gd.Specs {
-				if vs, ok := sp.(*ast.ValueSpec); ok && len(vs.Values) == len(vs.Names) {
-					for i, nm := range vs.Names {
-						set(nm, vs.Values[i])
-					}
-				}
-			}
-		}
-	}
-}
-
-// constTest decides `v == K` / `v != K` for a local v that holds a constant on the path.
-func (x *X) constTest(e ast.Expr, cenv map[types.Object]constant.Value) (bool, bool) {
-	be, ok := ast.Unparen(e).(*ast.BinaryExpr)
-	if !ok || be.Op != token.EQL && be.Op != token.NEQ {
-		return false, false
-	}
-	for _, pair := range [][2]ast.Expr{{be.X, be.Y}, {be.Y, be.X}} {
-		id, ok := ast.Unparen(pair[0]).(*ast.Ident)
-		if !ok {
-			continue
-		}
-		cv, held := cenv[core.ObjOf(x.Info, id)]
-		tv, isConst := x.Info.Types[ast.Unparen(pair[1])]
-		if !held || !isConst || tv.Value == nil || cv.Kind() != tv.Value.Kind() {
-			continue
-		}
-		return constant.Compare(cv, be.Op, tv.Value), true
-	}
-	return false, false
-}
-
-// inline computes the rows of the helper behind an unrecognised literal, with the helper's
-// parameters (and receiver) bound to the call's arguments. The literal is a call of a
-// same-package function or method, of a function literal (also one passed as an argument or
-// bound to a local), or a boolean local that holds result #k of such a call.
-func (x *X) inline(l Lit, cls Classifier) ([]Row, error) {
-	if x.Prog == nil || x.depth <= 0 {
-		return nil, fmt.Errorf("no inlining")
-	}
-	idx := 0
-	var call *ast.CallExpr
-	switch v := ast.Unparen(l.Expr).(type) {
-	case *ast.CallExpr:
-		call = v
-	case *ast.Ident:
-		if BoolLocal(x.Info, v) == nil {
-			return nil, fmt.Errorf("not a call")
-		}
-		d, ok := SingleDef(x.Info, x.G.Body, v)
-		if !ok || d.Rhs == nil || d.Index < 0 || d.Range != nil {
-			return nil, fmt.Errorf("not a call result")
-		}
-		c, ok := ast.Unparen(x.subst(d.Rhs)).(*ast.CallExpr)
-		if !ok {
-			return nil, fmt.Errorf("not a call result")
-		}
-		call, idx = c, d.Index
-	default:
-		return nil, fmt.Errorf("not a call")
-	}
-	if call.Ellipsis.IsValid() {
-		return nil, fmt.Errorf("variadic call")
-	}
-	var params *ast.FieldList
-	var results *ast.FieldList
-	var recv *ast.FieldList
-	var hg *cfgq.Graph
-	lit, _ := ast.Unparen(call.Fun).(*ast.FuncLit)
-	if id, ok := ast.Unparen(call.Fun).(*ast.Ident); ok && lit == nil {
-		if d, ok := SingleDef(x.Info, x.G.Body, id); ok && d.Rhs != nil && d.Index == -1 {
-			lit, _ = ast.Unparen(d.Rhs).(*ast.FuncLit)
-		}
-	}
-	if lit != nil {
-		if lit.Body == x.G.Body {
-			return nil, fmt.Errorf("recursive")
-		}
-		params, results, hg = lit.Type.Params, lit.Type.Results, cfgq.OfLit(x.Prog, x.Info, lit)
-	} else {
-		f := core.CalleeFunc(x.Info, call)
-		h := x.Prog.FnOf(f)
-		if h == nil || h.Decl.Body == nil || h.Pkg.TypesInfo != x.Info || h.Decl.Body == x.G.Body {
-			return nil, fmt.Errorf("not a helper of the same package")
-		}
-		params, results, recv, hg = h.Decl.Type.Params, h.Decl.Type.Results, h.Decl.Recv, cfgq.Of(x.Prog, h)
-	}
-	// result #idx must be boolean
-	var rtypes []ast.Expr
-	if results != nil {
-		for _, fl := range results.List {
-			n := len(fl.Names)
-			if n == 0 {
-				n = 1
-			}
-			for k := 0; k < n; k++ {
-				rtypes = append(rtypes, fl.Type)
-			}
-		}
-	}
-	if idx >= len(rtypes) {
-		return nil, fmt.Errorf("no such result")
-	}
-	if b, ok := x.Info.TypeOf(rtypes[idx]).Underlying().(*types.Basic); !ok || b.Kind() != types.Bool {
-		return nil, fmt.Errorf("no boolean result")
-	}
-	bind := map[types.Object]ast.Expr{}
-	for k, v := range x.bind {
-		bind[k] = v
-	}
-	i := 0
-	for _, fl := range params.List {
-		if _, variadic := fl.Type.(*ast.Ellipsis); variadic {
-			return nil, fmt.Errorf("variadic helper")
-		}
-		for _, n := range fl.Names {
-			if i >= len(call.Args) {
-				return nil, fmt.Errorf("argument count")
-			}
-			if o := x.Info.Defs[n]; o != nil {
-				bind[o] = call.Args[i]
-			}
-			i++
-		}
-		if len(fl.Names) == 0 {
-			i++
-		}
-	}
-	if i != len(call.Args) {
-		return nil, fmt.Errorf("argument count")
-	}
-	if recv != nil && len(recv.List) == 1 && len(recv.List[0].Names) == 1 {
-		if sel, ok := ast.Unparen(call.Fun).(*ast.SelectorExpr); ok {
-			bind[x.Info.Defs[recv.List[0].Names[0]]] = sel.X
-		}
-	}
-	hx := New(hg)
-	hx.Prog, hx.bind, hx.depth, hx.LoopDecisions = x.Prog, bind, x.depth-1, x.LoopDecisions
-	hx.ZeroInit = map[types.Object]bool{}
-	if results != nil {
-		for _, fl := range results.List {
-			for _, n := range fl.Names {
-				hx.Named = append(hx.Named, n)
-				hx.ZeroInit[x.Info.Defs[n]] = true
-			}
-		}
-	}
-	traces, err := hx.Traces(hx.G.CFG.Blocks[0], 0, nil, 200)
-	if err != nil {
-		return nil, err
-	}
-	return hx.Table(traces, idx, cls)
-}
-
-// subst replaces the bound parameters of an inlined helper in e by the
-// arguments. Sub-trees without a bound parameter are returned as they are
-// (original nodes keep their type information).
-func (x *X) subst(e ast.Expr) ast.Expr {
-	if len(x.bind) == 0 || e == nil {
-		return e
-	}
-	mentions := false
-	ast.Inspect(e, func(n ast.Node) bool {
-		if id, ok := n.(*ast.Ident); ok {
-			if _, bound := x.bind[core.ObjOf(x.Info, id)]; bound && core.ObjOf(x.Info, id) != nil {
-				mentions = true
-			}
-		}
-		return !mentions
-	})
-	if !mentions {
-		return e
-	}
-	switch v := e.(type) {
-	case *ast.Ident:
-		if r, ok := x.bind[core.ObjOf(x.Info, v)]; ok {
-			return r
-		}
-	case *ast.ParenExpr:
-		return &ast.ParenExpr{Lparen: v.Lparen, X: x.subst(v.X), Rparen: v.Rparen}
-	case *ast.UnaryExpr:
-		return &ast.UnaryExpr{OpPos: v.OpPos, Op: v.Op, X: x.subst(v.X)}
-	case *ast.StarExpr:
-		return &ast.StarExpr{Star: v.Star, X: x.subst(v.X)}
-	case *ast.BinaryExpr:
-		return &ast.BinaryExpr{X: x.subst(v.X), OpPos: v.OpPos, Op: v.Op, Y: x.subst(v.Y)}
-	case *ast.SelectorExpr:
-		return &ast.SelectorExpr{X: x.subst(v.X), Sel: v.Sel}
-	case *ast.IndexExpr:
-		return &ast.IndexExpr{X: x.subst(v.X), Lbrack: v.Lbrack, Index: x.subst(v.Index), Rbrack: v.Rbrack}
-	case *ast.CallExpr:
-		c := &ast.CallExpr{Fun: x.subst(v.Fun), Lparen: v.Lparen, Ellipsis: v.Ellipsis, Rparen: v.Rparen}
-		for _, a := range v.Args {
-			c.Args = append(c.Args, x.subst(a))
-		}
-		return c
-	}
-	return e
-}
-
-// Expand returns the defining expression of a boolean local that is assigned
-// exactly once from an expression over stable operands (parameters, locals
-// assigned at most once, configuration fields), or nil.
-func (x *X) Expand(id *ast.Ident) ast.Expr {
-	o := BoolLocal(x.Info, id)
-	if o == nil {
-		return nil
-	}
-	if r, ok := x.expd[o]; ok {
-		return r
-	}
-	x.expd[o] = nil
-	d, ok := SingleDef(x.Info, x.G.Body, id)
-	if !ok || d.Rhs == nil || d.Index != -1 || d.Range != nil {
-		return nil
-	}
-	if _, isConst := BoolConst(x.Info, d.Rhs); isConst {
-		return nil
-	}
-	stable := true
-	ast.Inspect(d.Rhs, func(n ast.Node) bool {
-		if m, ok := n.(*ast.Ident); ok && stable {
-			if v, ok := core.ObjOf(x.Info, m).(*types.Var); ok && !v.IsField() && v.Pkg() != nil && v.Parent() != v.Pkg().Scope() {
-				if len(DefsOf(x.Info, x.G.Body, v)) > 1 {
-					stable = false
-				}
-			}
-		}
-		return stable
-	})
-	if !stable {
-		return nil
-	}
-	x.expd[o] = d.Rhs
-	return d.Rhs
-}
-
-// Atoms returns the sorted atom names used by rows.
-func Atoms(rows []Row) []string {
-	m := map[string]bool{}
-	for _, r := range rows {
-		for a := range r.Lits {
-			m[a] = true
-		}
-	}
-	var out []string
-	for a := range m {
-		out = append(out, a)
-	}
-	sort.Strings(out)
-	return out
-}
-
-// Want is one row of a reference table: for every feasible valuation that
-// extends When the predicate must answer Out.
-type Want struct {
-	Name  string
-	When  map[string]bool
-	Out   string
-	Input string // the concrete input this row stands for (for messages)
-}
-
-// Verdict of one reference row.
-type Verdict struct {
-	Want      Want
-	OK        bool
-	Undecided bool
-	Witness   string
-}
-
-// Compare evaluates rows on every feasible valuation of universe.
-func Compare(rows []Row, universe []string, feasible func(map[string]bool) bool, wants []Want) []Verdict {
-	var out []Verdict
-	n := len(universe)
-	for _, w := range wants {
-		v := Verdict{Want: w, OK: true}
-		for m := 0; m < 1<<n && v.OK && !v.Undecided; m++ {
-			as := map[string]bool{}
-			for i, a := range universe {
-				as[a] = m&(1<<i) != 0
-			}
-			ext := true
-			for a, val := range w.When {
-				if as[a] != val {
-					ext = false
-				}
-			}
-			if !ext || (feasible != nil && !feasible(as)) {
-				continue
-			}
-			matched := 0
-			for _, r := range rows {
-				ok := true
-				for a, val := range r.Lits {
-					if as[a] != val {
-						ok = false
-					}
-				}
-				if !ok {
-					continue
-				}
-				matched++
-				if r.Out != w.Out {
-					v.OK = false
-					v.Witness = fmt.Sprintf("with %s the code takes the path [%s], expected %s", Valuation(as), r, w.Out)
-				}
-			}
-			if matched == 0 {
-				v.Undecided = true
-				v.Witness = "no extracted path covers " + Valuation(as)
-			}
-		}
-		out = append(out, v)
-	}
-	return out
-}
-
-// Valuation prints a valuation.
-func Valuation(as map[string]bool) string {
-	var ks []string
-	for k := range as {
-		ks = append(ks, k)
-	}
-	sort.Strings(ks)
-	var s []string
-	for _, k := range ks {
-		s = append(s, fmt.Sprintf("%s=%v", k, as[k]))
-	}
-	return "{" + strings.Join(s, ", ") + "}"
 }
